@@ -10,35 +10,39 @@ import math
 from lib.core import zlit, natlit
 
 MANIFEST = {
-    'text': 'Coq theorems (30, all closed under the global context) over a Gallina model of every stub in mpyc/gmpy.py, for all '
-            'integers: gcdext terminates and returns g = gcd(a,b) = a*s + b*t; invert returns 0 <= y < |m| (0 < y if |m| > 1) with '
-            'x*y = 1 mod |m| exactly when gcd(x,m) = 1 and m != 0, else ZeroDivisionError; powmod = x^y mod m (y >= 0); '
-            'isqrt/is_square/iroot: r^n <= x < (r+1)^n and exactness flag, ValueError for negative x, is_square true iff a square; jacobi: ValueError '
-            'exactly off-domain, terminates, value in {-1,0,1}, 0 iff gcd != 1, depends on x mod y only, equals Euler\'s criterion '
-            'for every odd prime y < 400 (by computation, bound in the statement); kronecker = jacobi for odd y > 0; is_prime: '
-            'prime x -> True for ALL tapes and round counts (Fermat\'s little theorem and square roots of 1 proved here), hence '
-            'False -> composite; next_prime/prev_prime return the nearest prime relative to a correct primality oracle (and, '
-            'without that assumption, an accepted candidate with all skipped ones rejected); factor_prime_power and ratrec '
-            'soundness, domain errors and termination. The model is compared exactly with the stubs (results, exception '
-            'class, number of random draws on a shared randint tape) on exhaustive ranges and random 64..512-bit inputs on '
-            'every run, and the stubs are checked against brute-force definitions.',
-    'note': 'Trusted: Coq kernel + vm_compute; model Gmpy.v tied to gmpy.py by the exact comparison of this check; built-ins '
-            'pow/math.isqrt/math.gcd/bit_length/&,|,>> are modelled by pow3 (square-and-multiply, proved = Z.pow mod)/Z.sqrt/'
-            'Z.gcd/Z.log2/Z.land.. and compared through the stubs that use them; random.randint is a tape. PARTIAL / NOT '
-            'proved: the GMP normalisation bounds of gcdext only for |a|,|b| <= 64 (by computation; oracle-checked on the '
-            'implementation for larger and random 512-bit arguments); jacobi = Jacobi symbol in general (needs quadratic '
-            'reciprocity; only the facts above + Euler criterion below 400; oracle by factorisation on the implementation); '
-            '"is_prime True -> prime" is probabilistic in the tape: only bounded statements (every trial-division survivor '
-            'below 1024 is prime; for odd composites below 4096 at most 1/4 of the bases pass a round); completeness of '
-            'factor_prime_power (raises only if not a prime power) and of ratrec (raises only if no solution) are checked by '
-            'brute-force oracle only; kronecker for even/negative y only by oracle + correspondence; powmod with negative '
-            'exponent only by correspondence; next/prev_prime search fuel is an explicit parameter (no prime-gap bound). '
-            'Oracle for >20-bit primality is an independent Miller-Rabin with 40 fixed prime bases. Finding F-C25-1 (iroot returned a '
-            'value for negative x instead of raising) is repaired by /repo commit 15b125f; the model, C25_iroot_domain and '
-            'the oracle now require ValueError for every x < 0. Observation: is_square raises ValueError for negative x '
-            'with x mod 16 in {0,1,4,9} and returns False for the other negatives (gmpy2 returns False).',
-    'technique': 'Coq proofs (Euclid invariants, Fermat little theorem by permutation, bit-loop invariants) + vm_compute '
-                 'correspondence on shared randint tapes + brute-force oracles',
+    'text': 'Coq theorems (36, all closed under the global context) over a Gallina model of every stub in mpyc/gmpy.py, for all '
+            'integers: gcdext terminates, returns g = gcd(a,b) = a*s + b*t and obeys the GMP normalisation of its docstring for '
+            'ALL a, b (|s| < |b|/(2g), |t| < |a|/(2g) with exactly the documented exceptional cases); invert returns 0 <= y < |m| '
+            '(0 < y if |m| > 1) with x*y = 1 mod |m| exactly when gcd(x,m) = 1 and m != 0, else ZeroDivisionError; powmod = x^y mod m '
+            '(y >= 0); isqrt/is_square/iroot: r^n <= x < (r+1)^n and exactness flag, ValueError for negative x, is_square true iff a '
+            'square; jacobi: ValueError exactly off-domain, terminates, value in {-1,0,1}, 0 iff gcd != 1, depends on x mod y only, '
+            'equals Euler\'s criterion for every odd prime y < 400 (by computation, bound in the statement); kronecker = jacobi for '
+            'odd y > 0; is_prime: prime x -> True for ALL tapes and round counts (Fermat\'s little theorem and square roots of 1 '
+            'proved here), hence False -> composite; next_prime/prev_prime return the nearest prime relative to a correct primality '
+            'oracle; ratrec: sound, terminates, the reconstruction is unique and is returned exactly when it exists (ValueError '
+            'exactly when none exists or the bounds are unsupported); factor_prime_power: sound, and relative to a correct oracle '
+            'complete on prime powers, so ValueError only for non-prime-powers. The model is compared exactly with the stubs '
+            '(results, exception class, number of random draws on a shared randint tape) on exhaustive ranges and random '
+            '64..512-bit inputs on every run, and the stubs are checked against brute-force definitions.',
+    'note': 'Trusted: Coq kernel + vm_compute; model Gmpy.v (proofs also in GmpyGcdext.v, GmpyRatrec.v, GmpyFpp.v) tied to gmpy.py '
+            'by the exact comparison of this check; built-ins pow/math.isqrt/math.gcd/bit_length/&,|,>> are modelled by pow3 '
+            '(square-and-multiply, proved = Z.pow mod)/Z.sqrt/Z.gcd/Z.log2/Z.land.. and compared through the stubs that use them; '
+            'random.randint is a tape. PARTIAL / NOT proved: jacobi = Jacobi symbol in general (needs quadratic reciprocity; only '
+            'the facts above + Euler criterion below 400; oracle by factorisation on the implementation); "is_prime True -> prime" '
+            'is probabilistic in the tape: only bounded statements (every trial-division survivor below 1024 is prime; for odd '
+            'composites below 4096 at most 1/4 of the bases pass a round); kronecker for even/negative y only by oracle + '
+            'correspondence; powmod with negative exponent only by correspondence; next/prev_prime search fuel is an explicit '
+            'parameter of the model (no prime-gap bound is provable), so factor_prime_power completeness reads "Ok (q,k) or the '
+            'model ran out of that search fuel" (all other loop fuels are proved sufficient); the ratrec theorems are about '
+            'ratrec_core (explicit N, D); the default-N/D wrapper is covered by correspondence + oracle. In the quick tier the '
+            'model is compared on sub-ranges for next/prev_prime ([-50,1500]) and factor_prime_power ([-5,420] and [1015,1045]) '
+            'while implementation + oracle cover the full ranges. Oracle for >20-bit primality is an independent Miller-Rabin '
+            'with 40 fixed prime bases. Finding F-C25-1 (iroot returned a value for negative x) is repaired by /repo commit 15b125f. '
+            'Observation: is_square raises ValueError for negative x with x mod 16 in {0,1,4,9} and returns False for the other '
+            'negatives (gmpy2 returns False). A model expression whose evaluation fails or times out is retried alone before it '
+            'counts; wall-clock limits are 40 min per file.',
+    'technique': 'Coq proofs (Euclid cofactor invariants, Fermat little theorem by permutation, lattice argument for Wang\'s '
+                 'rational reconstruction, bit-loop invariants) + vm_compute correspondence on shared randint tapes + brute-force oracles',
 }
 
 M521 = 2 ** 521 - 1
